@@ -214,6 +214,7 @@ class Folder:
         self.prog = prog
         self.keep = set(keep) | set(ANCHOR_NAMES)  # callees the rules bind to by name: never expanded
         self.max_depth = max_depth
+        self.read: dict[str, FuncInfo] = {}  # every helper whose body was read as part of a caller's value
         self.mark_raise = False  # keep `if c: raise` guards as `RAISE if c else ...` instead of dropping them
 
     # -- helper resolution (same policy as engine.normalize: private, not an anchored function, not overridden)
@@ -280,11 +281,17 @@ class Folder:
             # only helpers that merely *compute a value* are read through: bindings, branches, returns
             for s in fi.node.body:
                 for n in walk_no_nested(s):
+                    if isinstance(n, ast.For) and not n.orelse and all(
+                            isinstance(x, (ast.Assign, ast.If, ast.Return)) or (isinstance(x, ast.Expr) and isinstance(x.value, ast.Constant))
+                            for b in n.body for x in [b]):
+                        continue  # a search loop (`if C: return K`): read as a quantifier
                     if isinstance(n, (ast.For, ast.AsyncFor, ast.While, ast.Try, ast.With, ast.AsyncWith, ast.Delete, ast.AugAssign)) \
                             or (isinstance(n, ast.Assign) and any(not isinstance(t, ast.Name) for t in n.targets)) \
                             or (isinstance(n, ast.Expr) and not (isinstance(n.value, ast.Constant) or (
                                 isinstance(n.value, ast.Call) and txt(n.value.func).split(".")[0] in ("_logger", "logging", "_log")))):
                         raise AnalysisError(f"{fi.qual} is not a pure value helper")
+        if depth > 0 or binds is not None:
+            self.read[fi.qual] = fi
         node = freshen(copy.deepcopy(fi.node))
         if isinstance(node, ast.AsyncFunctionDef):
             raise AnalysisError(f"cannot fold async function {fi.qual}")
@@ -359,6 +366,10 @@ class Folder:
                 if r is not None:
                     return r
                 continue
+            # `for x in S: if C: return K` followed by `return not K`  ==  any / all over S
+            q = self._quantifier_loop(s, stmts[i + 1:], env, fi, nested, depth)
+            if q is not None:
+                return q
             # loops / try / match: not folded; a return inside cannot be expressed
             if any(isinstance(n, ast.Return) for n in walk_no_nested(s)):
                 raise AnalysisError(f"{fi.qual}: return inside a compound statement cannot be folded")
@@ -366,6 +377,40 @@ class Folder:
                 if isinstance(n, ast.Name) and isinstance(n.ctx, (ast.Store, ast.Del)):
                     env.pop(n.id, None)
         return None
+
+
+def _bool_const(e: ast.AST | None) -> bool | None:
+    return e.value if isinstance(e, ast.Constant) and isinstance(e.value, bool) else None
+
+
+def _quantifier_loop(self: Folder, s: ast.stmt, rest: list[ast.stmt], env: dict[str, ast.AST], fi: FuncInfo,
+                     nested: dict[str, FuncNode], depth: int) -> ast.AST | None:
+    """A search loop as the quantifier it computes (None if `s` is not one)."""
+    if not (isinstance(s, ast.For) and isinstance(s.target, ast.Name) and not s.orelse and rest and isinstance(rest[0], ast.Return)):
+        return None
+    after = _bool_const(rest[0].value)
+    *binds, last = s.body
+    if after is None or not isinstance(last, ast.If) or last.orelse or len(last.body) != 1 or not isinstance(last.body[0], ast.Return) \
+            or _bool_const(last.body[0].value) is not (not after):
+        return None
+    local: dict[str, ast.AST] = {}
+    for b in binds:
+        if isinstance(b, ast.Expr) and isinstance(b.value, ast.Constant):
+            continue
+        if not (isinstance(b, ast.Assign) and len(b.targets) == 1 and isinstance(b.targets[0], ast.Name)):
+            return None
+        local[b.targets[0].id] = subst(b.value, local)
+    var = f"{s.target.id}#{next(_fresh)}"
+    cond = rename(subst(last.test, local), {s.target.id: var})
+    if after:  # found a counter-example -> False, else True: all(not C)
+        cond = ast.UnaryOp(op=ast.Not(), operand=cond)
+    comp = ast.GeneratorExp(elt=cond, generators=[ast.comprehension(target=ast.Name(id=var, ctx=ast.Store()), iter=s.iter, ifs=[], is_async=0)])
+    call = ast.Call(func=ast.Name(id="all" if after else "any", ctx=ast.Load()), args=[comp], keywords=[])
+    inner_env = {k: v for k, v in env.items() if k != s.target.id}
+    return self.expr(ast.fix_missing_locations(ast.copy_location(call, s)), inner_env, fi, nested, depth)
+
+
+Folder._quantifier_loop = _quantifier_loop  # type: ignore[attr-defined]
 
 
 def closure_env(outer: FuncNode) -> dict[str, ast.AST]:
@@ -384,6 +429,34 @@ def resolve_callable(folder: Folder, fi: FuncInfo, expr: ast.AST, defs: dict[str
             break
     clo = closure_env(fi.node)
     ph = ast.Name(id="%1", ctx=ast.Load())
+    if isinstance(e, ast.Call) and txt(e.func) in ("functools.partial", "partial") and e.args \
+            and not any(isinstance(a, ast.Starred) for a in e.args) and not any(k.arg is None for k in e.keywords):
+        # partial(f, a, k=v): f with its leading parameters / keywords bound, the one left over is the argument
+        target = e.args[0]
+        callee: FuncInfo | None = None
+        is_nested = False
+        if isinstance(target, ast.Name):
+            for s in fi.node.body:
+                for n in walk_no_nested(s):
+                    if isinstance(n, _FuncTypes) and n.name == target.id:
+                        callee, is_nested = FuncInfo(n.name, fi.module, n, None, fi), True
+            if callee is None and target.id in fi.module.functions:
+                callee = fi.module.functions[target.id]
+            ps = _params_of(callee.node) if callee is not None else []
+        elif isinstance(target, ast.Attribute) and isinstance(target.value, ast.Name) and target.value.id in ("self", "cls"):
+            cls = fi.cls if fi.cls is not None else (fi.outer.cls if fi.outer is not None else None)
+            callee = folder.prog.resolve_method(cls, target.attr) if cls is not None else None
+            ps = _params_of(callee.node)[1:] if callee is not None else []
+        if callee is None:
+            raise AnalysisError(f"cannot resolve the function bound by `{txt(expr)}` in {fi.qual}")
+        binds: dict[str, ast.AST] = {p: deref(a, defs) for p, a in zip(ps, e.args[1:])}
+        for k in e.keywords:
+            binds[k.arg] = deref(k.value, defs)  # type: ignore[index]
+        rest = [p for p in ps if p not in binds]
+        if len(e.args) - 1 > len(ps) or len(rest) != 1:
+            raise AnalysisError(f"callable `{txt(expr)}` does not take exactly one argument")
+        binds[rest[0]] = ph
+        return folder.ret_expr(callee, binds=binds, closure=clo if is_nested else None)
     if isinstance(e, ast.Lambda):
         lam = freshen(copy.deepcopy(e))
         ps = _params_of(lam)
